@@ -471,7 +471,7 @@ func (p *Program) canon(fn *Func, x ast.Expr, depth int) string {
 				}
 				// the same through a parameter of a looked-into helper bound to (the address of) such a local
 				if id, ok := ast.Unparen(v.X).(*ast.Ident); ok {
-					if vr, isVar := info.Uses[id].(*types.Var); isVar && isParamOf(fn, vr) {
+					if vr, isVar := info.Uses[id].(*types.Var); isVar && (isParamOf(fn, vr) || (fn.root().Recv != nil && vr == fn.root().Recv)) {
 						if bfn, bx := resolveBound(fn, id); bfn != fn || bx != ast.Expr(id) {
 							root := ast.Unparen(bx)
 							if u, isU := root.(*ast.UnaryExpr); isU && u.Op == token.AND {
@@ -778,6 +778,13 @@ func (p *Program) compositeOfIn(fn *Func, x ast.Expr) (*ast.CompositeLit, *Func)
 		switch v := ast.Unparen(x).(type) {
 		case *ast.CompositeLit:
 			return v, fn
+		case *ast.CallExpr:
+			// a builder helper that was looked into on the current path: what it returned
+			res, rfn, ok := p.inlinedResults(fn, v)
+			if !ok || len(res) != 1 {
+				return nil, nil
+			}
+			fn, x = rfn, res[0]
 		case *ast.UnaryExpr:
 			if v.Op != token.AND {
 				return nil, nil
